@@ -208,6 +208,94 @@ func c11Batch(c *core.Ctx, label string, idx int, instrumented bool) {
 	}
 }
 
+// c11Predecessors: "parsing the same input twice always gives identical trees and errors" — whatever
+// was parsed in between. One case = one input X and a list of predecessors Y (X itself, truncations of
+// X, X with a backslash put before one of its quote/dollar/brace bytes — whole and cut right behind it —
+// so that Y drives the lexer through the same offsets as X and stops in the middle of a construct, and
+// unrelated inputs): after every Parse(Y) the result of Parse(X) must equal the first one. State that
+// survives a Parse call (a recycled lexer, a cache keyed by offset, a package-level table) shows here
+// without any concurrency.
+func c11Predecessors(c *core.Ctx, idx int) {
+	r := core.NewRand(c.P.Seed, "C11pred", idx)
+	var x parseCase
+	for try := 0; try < 20; try++ {
+		x = genParseCase(c.P.Seed, "C11predX", idx*32+try, 40)
+		if len(x.Src) >= 6 && len(x.Src) <= 6000 {
+			break
+		}
+	}
+	if len(x.Src) > 6000 {
+		x.Src = x.Src[:6000]
+	}
+	cb := r.Chance(3, 4)
+	render := func() string {
+		pr := obs.Parse(append([]byte(nil), x.Src...), x.Ver, cb)
+		if pr.Panic != nil {
+			return "panic:" + pr.Panic.Sig
+		}
+		return "errors:" + strings.Join(obs.ErrStrings(pr.Errors), "|") + "\n" + obs.Fingerprint(pr.Root, false)
+	}
+	c.Inflight(x.Src, "C11 predecessors")
+	want := render()
+	var preds [][]byte
+	var kinds []string
+	add := func(kind string, y []byte) { preds = append(preds, y); kinds = append(kinds, kind) }
+	add("same", x.Src)
+	for i := 0; i < 3; i++ {
+		add("truncated", x.Src[:r.Intn(len(x.Src))])
+	}
+	var special []int
+	for p := 1; p < len(x.Src); p++ {
+		switch x.Src[p] {
+		case '$', '"', '`', '\'', '{', '\\':
+			special = append(special, p)
+		}
+	}
+	// every special byte (at most 48, the earliest ones first: the first escape test of X is among them)
+	if len(special) > 48 {
+		special = special[:48]
+	}
+	for _, p := range special {
+		y := append([]byte(nil), x.Src...)
+		y[p-1] = '\\'
+		if r.Chance(1, 4) {
+			add("backslash-before-special", y)
+		}
+		add("backslash-before-special-cut", y[:p+1])
+	}
+	// a predecessor that ends inside a string body exactly where a string body of X begins, on an
+	// escaped byte (what a per-offset memo or a recycled string-scanning state would carry over)
+	openers := 0
+	for q := 4; q < len(x.Src) && openers < 4; q++ {
+		if o := x.Src[q-1]; o == '"' || o == '`' || (o == '\n' && bytes.Contains(x.Src[max(0, q-24):q], []byte("<<<"))) {
+			openers++
+			for _, quote := range []string{"\"", "`"} {
+				y := []byte("<?" + quote + strings.Repeat("a", q-4) + "\\")
+				add("aligned-escaped-string-end", append(y, x.Src[q]))
+			}
+		}
+	}
+	for i := 0; i < 2; i++ {
+		add("unrelated", genParseCase(c.P.Seed, "C11predY", idx*8+i, 50).Src)
+	}
+	for i, y := range preds {
+		ver := x.Ver
+		if r.Chance(1, 3) {
+			ver = pickVersion(r)
+		}
+		c.Inflight(y, "C11 predecessor "+kinds[i])
+		obs.Parse(append([]byte(nil), y...), ver, r.Chance(1, 2))
+		got := render()
+		c.Add("reparses_after_a_predecessor", 1)
+		c.Cover("predecessor_kind", kinds[i])
+		if got != want {
+			c.Violation("sequential|predecessor-dependent|"+kinds[i], fmt.Sprintf("Parse(X) after Parse(Y) differs from the first Parse(X) (Y: %s %s): %s", kinds[i], obsQuote(y, 200), obs.FirstDiff(want, got)), core.W(x.Src, x.Ver).With("predecessor", obsQuote(y, 400)).With("predecessor_version", ver))
+			return
+		}
+	}
+	c.NonTrivial([]byte("pred"), x.Src, []byte(x.Ver))
+}
+
 func c11DiffLine(a, b string) string {
 	la, lb := strings.Split(a, "\n"), strings.Split(b, "\n")
 	for i := range la {
@@ -335,14 +423,20 @@ func c11RaceSite(s string) string {
 func init() {
 	core.Register(&core.Check{
 		ID:   "C11",
-		Rule: "cases = batches of 2..32 goroutines x GOMAXPROCS in {1,2,4,16}, each goroutine running a whole pipeline (parse with/without callback under a PRNG version; print; dump with and without tokens/positions; recording traversal; name resolution) on its own input from the shared workload (hostile, corpus, generated and namespace programs, deep nestings; sometimes the same input twice), concurrent phase first and the sequential baseline afterwards; the race-detector twin C11R runs such batches from the -race binary with Gosched injection at the lexer hooks, plus the real CLI (-race build) over a generated directory; non-trivial (main run) = batch, distinct by the observed order of its first 48 stage events (= distinct interleavings seen)",
+		Rule: "cases = batches of 2..32 goroutines x GOMAXPROCS in {1,2,4,16}, each goroutine running a whole pipeline (parse with/without callback under a PRNG version; print; dump with and without tokens/positions; recording traversal; name resolution) on its own input from the shared workload (hostile, corpus, generated and namespace programs, deep nestings; sometimes the same input twice), concurrent phase first and the sequential baseline afterwards; every fourth case is a sequential predecessor case: Parse(X) must give the same tree and errors after each of its predecessors Parse(Y) (X itself, truncations of X, X with a backslash before a quote/dollar/brace byte whole and cut behind it, an unterminated string ending on an escaped byte exactly where a string body of X begins, unrelated inputs); the race-detector twin C11R runs such batches from the -race binary with Gosched injection at the lexer hooks, plus the real CLI (-race build) over a generated directory; non-trivial (main run) = batch, distinct by the observed order of its first 48 stage events (= distinct interleavings seen)",
 		Assumptions: []string{
 			"the race detector only reports races on interleavings that actually occur; the stage-event log of the uninstrumented-for-race main run shows how diverse they were",
 			"pipeline results are compared through hashes of the printed text, two dumps, the visitor-method sequence and the sorted resolved names, plus the literal error list",
 		},
-		Plan:          func(p core.Params) int { return p.Pick(1600, 150000) },
+		Plan:          func(p core.Params) int { return p.Pick(2200, 200000) },
 		Twins:         []string{"C11R"},
-		Run:           func(c *core.Ctx, idx int) { c11Batch(c, "C11", idx, true) },
+		Run: func(c *core.Ctx, idx int) {
+			if idx%4 == 3 {
+				c11Predecessors(c, idx)
+				return
+			}
+			c11Batch(c, "C11", idx, true)
+		},
 		MinNonTrivial: 50,
 	})
 	core.Register(&core.Check{
